@@ -1,0 +1,13 @@
+//go:build verif
+
+package builtin
+
+// Contracts for the deductive verifier in /verif (build tag "verif" only; this
+// file contains no declarations and is not part of any normal build).
+//
+//@ mode int
+//
+// Load compiles the built-in functions from hand-built syntax trees. It is not verified: callers see
+// it as a procedure that may modify anything.
+//@ func Load [C16] trusted
+//@   modifies *
